@@ -56,18 +56,19 @@ Proof. destruct (base_of_config_ok s). apply base_of_config_join; assumption. Qe
 Section Srv.
 Variable mfa : str -> option str.
 Variable cfg : scfg.
+Variable srcok : str -> nat -> bool.
 
 (** Serving under a base path = serving the same request with the prefix stripped, with no
     base path configured. *)
 Lemma serve_base_shift base st m body segs segs' :
   Forall good_seg base -> segs' <> [] -> Forall2 dec_as segs segs' -> Forall nosl segs' ->
   Forall (fun s => plain_seg s = true) segs' ->
-  serve mfa cfg base st {| rq_meth := m; rq_path := join_slash (base ++ segs); rq_body := body |}
-  = serve mfa cfg [] st {| rq_meth := m; rq_path := join_slash segs; rq_body := body |}.
+  serve mfa cfg srcok base st {| rq_meth := m; rq_path := join_slash (base ++ segs); rq_body := body |}
+  = serve mfa cfg srcok [] st {| rq_meth := m; rq_path := join_slash segs; rq_body := body |}.
 Proof.
   intros GB NE D F P.
-  rewrite (serve_routes mfa cfg base st m body (base ++ segs) (base ++ segs')).
-  - rewrite (serve_routes mfa cfg [] st m body segs segs' NE D F P). rewrite route_base_prefix. reflexivity.
+  rewrite (serve_routes mfa cfg srcok base st m body (base ++ segs) (base ++ segs')).
+  - rewrite (serve_routes mfa cfg srcok [] st m body segs segs' NE D F P). rewrite route_base_prefix. reflexivity.
   - destruct base; [exact NE|discriminate].
   - apply Forall2_app; [|exact D]. apply Forall2_same. eapply Forall_impl; [|exact GB]. apply good_seg_dec.
   - apply Forall_app. split; [|exact F]. eapply Forall_impl; [|exact GB]. intros s [I _]. apply inert_nosl. exact I.
@@ -78,9 +79,9 @@ Qed.
 Lemma serve_outside_base base st m body segs segs' :
   segs' <> [] -> Forall2 dec_as segs segs' -> Forall nosl segs' -> Forall (fun s => plain_seg s = true) segs' ->
   strip_prefix base segs' = None ->
-  fst (serve mfa cfg base st {| rq_meth := m; rq_path := join_slash segs; rq_body := body |}) = st.
+  fst (serve mfa cfg srcok base st {| rq_meth := m; rq_path := join_slash segs; rq_body := body |}) = st.
 Proof.
-  intros NE D F P N. rewrite (serve_routes mfa cfg base st m body segs segs' NE D F P).
+  intros NE D F P N. rewrite (serve_routes mfa cfg srcok base st m body segs segs' NE D F P).
   pose proof (route_outside_base base m segs' N) as H. destruct (route base m segs'); try reflexivity. discriminate.
 Qed.
 
@@ -91,9 +92,9 @@ Lemma missing_is_404_http base st m body segs segs' h name id num mb :
   segs' <> [] -> Forall2 dec_as segs segs' -> Forall nosl segs' -> Forall (fun s => plain_seg s = true) segs' ->
   route base m segs' = RHandler h name id num ->
   mfa name = Some mb -> spec_get cfg st mb id = NotExist -> addresses_message h body num = true ->
-  serve mfa cfg base st {| rq_meth := m; rq_path := join_slash segs; rq_body := body |} = (st, (S404, PNone)).
+  serve mfa cfg srcok base st {| rq_meth := m; rq_path := join_slash segs; rq_body := body |} = (st, (S404, PNone)).
 Proof.
-  intros NE D F P R M G A. rewrite (serve_routes mfa cfg base st m body segs segs' NE D F P), R. cbn [dispatch].
+  intros NE D F P R M G A. rewrite (serve_routes mfa cfg srcok base st m body segs segs' NE D F P), R. cbn [dispatch].
   apply missing_is_404_handler with (mb := mb); assumption.
 Qed.
 
